@@ -73,6 +73,48 @@ Proof.
        eqb_cases; subst; try congruence; reflexivity.
 Qed.
 
+Lemma nni_undo_eval h q hx hy hxm hym ix iy jx jy ic e1 e2 ec ed1 ed2 edc :
+  let x := q_n1 q in let y := q_n2 q in let ym := q_n12 q in
+  let xm := if q_cross q then q_n21 q else q_n22 q in
+  alookup x (hnodes h) = Some hx -> alookup y (hnodes h) = Some hy ->
+  alookup xm (hnodes h) = Some hxm -> alookup ym (hnodes h) = Some hym ->
+  x <> y -> x <> xm -> x <> ym -> y <> xm -> y <> ym -> xm <> ym ->
+  index_of y (hneigh hx) = Some ic -> index_of xm (hneigh hx) = Some ix -> index_of x (hneigh hxm) = Some jx ->
+  index_of ym (hneigh hy) = Some iy -> index_of y (hneigh hym) = Some jy ->
+  nth_error (hbr hx) ix = Some e1 -> nth_error (hbr hy) iy = Some e2 -> nth_error (hbr hx) ic = Some ec ->
+  ix < length (hneigh hx) -> iy < length (hneigh hy) -> jx < length (hneigh hxm) -> jy < length (hneigh hym) ->
+  alookup e1 (hedges h) = Some ed1 -> alookup e2 (hedges h) = Some ed2 -> alookup ec (hedges h) = Some edc ->
+  e1 <> e2 -> e1 <> ec -> e2 <> ec ->
+  exists h', nni_undo_heap q h = HOk h' /\
+    nni_desc h h' x y xm ym ix iy jx jy e1 e2 ec (Nat.eqb (hright ed2) y) hx hy hxm hym ed1 ed2 edc.
+Proof.
+  intros x y xm ym Hx Hy Hxm Hym N1 N2 N3 N4 N5 N6 Ic Ix Jx Iy Jy B1 B2 Bc L1 L2 L3 L4 E1 E2 Ec M1 M2 M3.
+  assert (L1' : ix < length (hbr hx)) by (apply nth_error_Some; congruence).
+  assert (L2' : iy < length (hbr hy)) by (apply nth_error_Some; congruence).
+  unfold nni_undo_heap, node_index_msg, br_at, set_br_at, set_neigh_at, set_end, get_node, get_edge, nth_res.
+  fold x y xm ym.
+  repeat first
+    [ progress cbn [hbind hleft hright hinfo hnodes hedges hroot hnextn hnexte set_node set_edge fst snd hname hcom hneigh hbr negb flip]
+    | progress look
+    | rewrite Hx | rewrite Hy | rewrite Hxm | rewrite Hym | rewrite Ic | rewrite Ix | rewrite Jx | rewrite Iy | rewrite Jy
+    | rewrite B1 | rewrite B2 | rewrite Bc | rewrite E1 | rewrite E2 | rewrite Ec
+    | rewrite (proj2 (Nat.ltb_lt _ _) L1) | rewrite (proj2 (Nat.ltb_lt _ _) L2) | rewrite (proj2 (Nat.ltb_lt _ _) L3)
+    | rewrite (proj2 (Nat.ltb_lt _ _) L4) | rewrite (proj2 (Nat.ltb_lt _ _) L1') | rewrite (proj2 (Nat.ltb_lt _ _) L2') ].
+  destruct (Nat.eqb (hright ed2) y) eqn:Fl.
+  all: repeat first
+    [ progress cbn [hbind hleft hright hinfo hnodes hedges hroot hnextn hnexte set_node set_edge fst snd hname hcom hneigh hbr negb flip]
+    | progress look
+    | rewrite Hx | rewrite Hy | rewrite Hxm | rewrite Hym | rewrite Ic | rewrite Ix | rewrite Jx | rewrite Iy | rewrite Jy
+    | rewrite B1 | rewrite B2 | rewrite Bc | rewrite E1 | rewrite E2 | rewrite Ec
+    | rewrite (proj2 (Nat.ltb_lt _ _) L1) | rewrite (proj2 (Nat.ltb_lt _ _) L2) | rewrite (proj2 (Nat.ltb_lt _ _) L3)
+    | rewrite (proj2 (Nat.ltb_lt _ _) L4) | rewrite (proj2 (Nat.ltb_lt _ _) L1') | rewrite (proj2 (Nat.ltb_lt _ _) L2') ].
+  all: eexists; (split; [reflexivity|]); constructor; try reflexivity.
+  all: try (intros z; cbn [hnodes set_node set_edge]; rewrite !alookup_aupd; cbn [hname hcom hneigh hbr];
+            eqb_cases; subst; try congruence; reflexivity).
+  all: intros e; cbn [hedges set_node set_edge]; rewrite !alookup_aupd; unfold move_end; cbn [hleft hright hinfo];
+       eqb_cases; subst; try congruence; reflexivity.
+Qed.
+
 Lemma nni_desc_sym h h' x y xm ym ix iy jx jy e1 e2 ec fl hx hy hxm hym ed1 ed2 edc :
   x <> y -> x <> xm -> x <> ym -> y <> xm -> y <> ym -> xm <> ym -> e1 <> e2 ->
   nni_desc h h' x y xm ym ix iy jx jy e1 e2 ec fl hx hy hxm hym ed1 ed2 edc ->
